@@ -50,13 +50,14 @@ def sh(cmd, cwd=None, timeout=3600, env=None, stdin=None):
 
 
 class Lock:
-    def __init__(self, name):
+    def __init__(self, name, shared=False):
         os.makedirs(RUN, exist_ok=True)
         self.path = os.path.join(RUN, ".lock-" + name)
+        self.mode = fcntl.LOCK_SH if shared else fcntl.LOCK_EX
 
     def __enter__(self):
-        self.f = open(self.path, "w")
-        fcntl.flock(self.f, fcntl.LOCK_EX)
+        self.f = open(self.path, "a")
+        fcntl.flock(self.f, self.mode)
 
     def __exit__(self, *a):
         fcntl.flock(self.f, fcntl.LOCK_UN)
@@ -74,24 +75,37 @@ def coq_files():
     return sorted(out)
 
 
-def ensure_makefile():
+def makefile_stale():
     want = "-Q theories IB\n" + "\n".join(coq_files()) + "\n"
     cp = os.path.join(COQ, "_CoqProject")
     have = open(cp).read() if os.path.exists(cp) else ""
-    if want != have or not os.path.exists(os.path.join(COQ, "Makefile")):
-        open(cp, "w").write(want)
+    return want != have or not os.path.exists(os.path.join(COQ, "Makefile")), want
+
+
+def ensure_makefile():
+    """Regenerate _CoqProject / Makefile when the set of .v files changed (exclusive lock: waits
+    for running builds, which hold the lock shared)."""
+    stale, want = makefile_stale()
+    if not stale:
+        return
+    with Lock("coq"):
+        stale, want = makefile_stale()
+        if not stale:
+            return
+        open(os.path.join(COQ, "_CoqProject"), "w").write(want)
         rc, out = sh(["coq_makefile", "-f", "_CoqProject", "-o", "Makefile"], cwd=COQ)
         if rc != 0:
             raise Infra("coq_makefile failed:\n" + out)
 
 
-def coq_build(targets, clean=False, timeout=3000):
+def coq_build(targets, clean=False, timeout=3000, jobs=16):
     """Full .vo build (never -vos) of the given targets and everything they depend on."""
-    with Lock("coq"):
-        ensure_makefile()
-        if clean:
+    ensure_makefile()
+    if clean:
+        with Lock("coq"):
             sh(["make", "clean"], cwd=COQ)
-        rc, out = sh(["make", "-j16"] + targets, cwd=COQ, timeout=timeout)
+    with Lock("coq", shared=True):
+        rc, out = sh(["make", "-j%d" % jobs] + targets, cwd=COQ, timeout=timeout)
     return rc, out
 
 
